@@ -53,7 +53,7 @@ Proof. vm_compute. reflexivity. Qed.
 Example O01_body_goose_Ctx_scopedStmtShadows :
   has_body func_bodies "goose.Ctx.scopedStmtShadows"
     "func(s ast.Stmt) bool"
-    "{ switch s.(type) { case *ast.BlockStmt, *ast.ForStmt: default: return false } shadows := false ast.Inspect(s, func(n ast.Node) bool { id, ok := n.(*ast.Ident) if !ok || shadows { return !shadows } obj, ok := ctx.info.Defs[id].(*types.Var) if !ok || obj.Parent() == nil { return true } _, outer := obj.Parent().LookupParent(id.Name, s.Pos()) if v, ok := outer.(*types.Var); ok && v.Pkg() != nil && v.Parent() != v.Pkg().Scope() { shadows = true } return true }) return shadows }" = true.
+    "{ switch s.(type) { case *ast.BlockStmt, *ast.ForStmt: default: return false } shadows := false ast.Inspect(s, func(n ast.Node) bool { id, ok := n.(*ast.Ident) if !ok || shadows { return !shadows } obj, ok := ctx.info.Defs[id].(*types.Var) if !ok || obj.Parent() == nil { return true } _, outer := obj.Parent().LookupParent(id.Name, s.Pos()) if v, ok := outer.(*types.Var); ok && v.Pkg() != nil && v.Parent() != v.Pkg().Scope() { shadows = true } if _, ok := outer.(*types.Func); ok { shadows = true } return true }) return shadows }" = true.
 Proof. vm_compute. reflexivity. Qed.
 
 Example O01_body_goose_Ctx_forStmt :
@@ -161,7 +161,7 @@ Proof. vm_compute. reflexivity. Qed.
 Example O01_body_goose_Ctx_funcDecl :
   has_body func_bodies "goose.Ctx.funcDecl"
     "func(d *ast.FuncDecl) coq.FuncDecl"
-    "{ if d.Name.Name == ""_"" { ctx.unsupported(d.Name, ""function named _"") } fd := coq.FuncDecl{Name: d.Name.Name, AddTypes: ctx.PkgConfig.TypeCheck, TypeParams: ctx.typeParamList(d.Type.TypeParams), } addSourceDoc(d.Doc, &fd.Comment) ctx.addSourceFile(d, &fd.Comment) if d.Recv != nil { if len(d.Recv.List) != 1 { ctx.nope(d, ""function with multiple receivers"") } rcvr := d.Recv.List[0] rcvrTy := rcvr.Type if star, ok := rcvrTy.(*ast.StarExpr); ok { rcvrTy = star.X } ident, ok := rcvrTy.(*ast.Ident) if !ok { ctx.unsupported(rcvr, ""unexpected function receiver type: %s"", ctx.printGo(rcvrTy)) } fd.Name = coq.MethodName(ident.Name, d.Name.Name) fd.Args = append(fd.Args, ctx.field(rcvr)) } fd.Args = append(fd.Args, ctx.paramList(d.Type.Params)...) fd.ReturnType = ctx.returnType(d.Type.Results) fd.Body = ctx.blockStmt(d.Body, ExprValReturned) ctx.dep.addName(fd.Name) return fd }" = true.
+    "{ if d.Name.Name == ""_"" { ctx.unsupported(d.Name, ""function named _"") } fd := coq.FuncDecl{Name: d.Name.Name, AddTypes: ctx.PkgConfig.TypeCheck, TypeParams: ctx.typeParamList(d.Type.TypeParams), } addSourceDoc(d.Doc, &fd.Comment) ctx.addSourceFile(d, &fd.Comment) if d.Recv != nil { if len(d.Recv.List) != 1 { ctx.nope(d, ""function with multiple receivers"") } rcvr := d.Recv.List[0] rcvrTy := rcvr.Type if star, ok := rcvrTy.(*ast.StarExpr); ok { rcvrTy = star.X } ident, ok := rcvrTy.(*ast.Ident) if !ok { ctx.unsupported(rcvr, ""unexpected function receiver type: %s"", ctx.printGo(rcvrTy)) } fd.Name = coq.MethodName(ident.Name, d.Name.Name) fd.Args = append(fd.Args, ctx.field(rcvr)) } fd.Args = append(fd.Args, ctx.paramList(d.Type.Params)...) for _, arg := range fd.Args { if arg.Name == fd.Name { ctx.unsupported(d.Name, ""parameter with the name of its function"") } } fd.ReturnType = ctx.returnType(d.Type.Results) fd.Body = ctx.blockStmt(d.Body, ExprValReturned) ctx.dep.addName(fd.Name) return fd }" = true.
 Proof. vm_compute. reflexivity. Qed.
 
 Example O01_body_goose_Ctx_funcLit :
